@@ -78,6 +78,22 @@ Fixpoint l_set (l : list tval) (i : nat) (x : tval) : list tval :=
   | y :: r, S i => y :: l_set r i x
   end.
 
+(* `c += [v]` goes through vm.go appendSlice, which has its own element conversion: Go's ConvertibleTo /
+   Convert only (no one-character-string extension, a string is not a list), nil as the zero value of
+   a non-slice element type, and for a slice element type the value must itself be a list, converted
+   element by element *)
+Fixpoint append_conv (t : ty) (v : sval) {struct t} : option tval :=
+  match t with
+  | TIface => Some (VDyn v)
+  | TSlice e => match v with
+                | SList l => option_map (VSlice e) (Convert.map_opt (append_conv e) l)
+                | _ => None
+                end
+  | TBool => match v with SNil => Some (zero t) | SBool b => Some (VBool b) | _ => None end
+  | TInt n s w => match v with SNil => Some (zero t) | SInt z => Some (VInt n s w (wrap s w z)) | _ => None end
+  | TString => match v with SNil => Some (zero t) | SInt z => Some (VStr (utf8 z)) | SStr bs => Some (VStr bs) | _ => None end
+  end.
+
 (* one operation: the container afterwards and what the script observes; an operation that does not
    fit the container's kind is an error *)
 Definition tstep (c : tcont) (o : top) : tcont * obs :=
@@ -93,7 +109,7 @@ Definition tstep (c : tcont) (o : top) : tcont * obs :=
       if (i <? 0) || (Z.of_nat (List.length l) <=? i) then (c, XErr)
       else match nth_error l (Z.to_nat i) with Some x => (c, XVal x) | None => (c, XErr) end
   | KSlice e l, OAppend v =>
-      match conv v e with
+      match append_conv e v with
       | None => (c, XErr)
       | Some x => let c' := KSlice e (l ++ [x]) in (c', XCont c')
       end
